@@ -42,7 +42,7 @@ template<class A> static void compose_events(Guarded&ar,const QList&l,int sp,int
 template<class A> static void dissect_event(Guarded&ar,const Text&in,int ps,int conv,int ep){
   typedef typename A::Ch Ch; Ch*p=ar.put<Ch>(in,false); typename A::QL*ql=nullptr; int count=-7; RecMM mm; int rc=-9;
   g.set_case(J().str("driver","query/dissect").raw("in",jtext(in)).num("ps",ps).num("conv",conv).num("w",A::W).done());
-  int fault=guarded_call([&]{ rc= ep==2? A::DissectQueryMallocExMm(&ql,&count,p,p+in.size(),ps,(UriBreakConversion)conv,&mm.mm) : (ep==0&&ps==1&&conv==1? A::DissectQueryMalloc(&ql,&count,p,p+in.size()) : A::DissectQueryMallocEx(&ql,&count,p,p+in.size(),ps,(UriBreakConversion)conv)); });
+  int fault=guarded_call([&]{ rc= ep==2? A::DissectQueryMallocExMm(&ql,&count,p,p+in.size(),ps,(UriBreakConversion)conv,&mm.mm) : (ep==0&&ps==1&&conv==(int)URI_BR_DONT_TOUCH? A::DissectQueryMalloc(&ql,&count,p,p+in.size()) : A::DissectQueryMallocEx(&ql,&count,p,p+in.size(),ps,(UriBreakConversion)conv)); });
   std::string jl="[]"; if(!fault&&rc==URI_SUCCESS){ jl=jq(read_list<A>(ql)); if(ep==2) A::FreeQueryListMm(ql,&mm.mm); else A::FreeQueryList(ql); }
   g.event(J().str("e","Dissect").num("w",A::W).raw("in",jtext(in)).boo("ps",ps).num("conv",conv).num("rc",rc).num("count",count).raw("list",jl).raw("mem",mm.jlog()).num("leak",(long long)mm.outstanding()).num("fault",fault).str("s",show(in)).done()); mm.release_all(); }
 
@@ -77,11 +77,21 @@ VH_DRIVER(query){
   { std::vector<Text> toks={T("&"),T("="),T("a"),T("%41"),T("+"),T("%0D%0A"),T("%")}; int DL=g.thorough?6:4; std::vector<Text> ins;
     for(int len=0;len<=DL;++len){ std::vector<int> ix(len,0); while(true){ Text t; for(int i=0;i<len;++i) t.insert(t.end(),toks[ix[i]].begin(),toks[ix[i]].end()); ins.push_back(t); int i=len-1; while(i>=0&&++ix[i]==(int)toks.size()){ ix[i]=0; --i; } if(i<0) break; } }
     double kd= ins.size()*2>(size_t)want/3? (double)(want/3)/(ins.size()*2):1.0; long q=0;
-    for(auto&t:ins) for(int ps=0;ps<2;++ps){ ++q; if(kd<1.0 && (R.next()%1000000)>=kd*1000000) continue; int conv=(int)(q%4); AW(true,q%2,[&]{ dissect_event<ApiA>(ar,t,ps,conv,(int)(q%3)); },[&]{ dissect_event<ApiW>(ar,t,ps,conv,(int)(q%3)); }); g.count(jtext(t)+std::to_string(ps),!t.empty()); } }
+    for(auto&t:ins) for(int ps=0;ps<2;++ps){ ++q; if(kd<1.0 && (R.next()%1000000)>=kd*1000000) continue; int conv=(int)((q>>1)%4), ep=(int)((q>>3)%3); /* (q's parity is ps) */ AW(true,q%2,[&]{ dissect_event<ApiA>(ar,t,ps,conv,ep); },[&]{ dissect_event<ApiW>(ar,t,ps,conv,ep); }); g.count(jtext(t)+std::to_string(ps),!t.empty()); } }
   // size arithmetic at real scale: key and value of 2*10^8 characters each (measuring call only in quick; UBSan makes a signed overflow a crash)
   { size_t n=200u*1000u*1000u; for(int variant=0;variant<2;++variant){ std::string big(n, variant? 'a':'\r'); UriQueryListA item; item.key=big.c_str(); item.value=big.c_str(); item.next=nullptr; int req=-7; g.set_case(J().str("driver","query/giant").num("variant",variant).done());
       for(int nb=0;nb<2;++nb){ int rc=uriComposeQueryCharsRequiredExA(&item,&req,URI_TRUE,nb);
         g.event(J().str("e","ComposeReqGiant").num("km",200).num("vm",200).boo("nb",nb).num("rc",rc).boo("nonneg",req>=0).num("reqm",req/1000000).done()); } } }
+  // one single key (or value) whose worst-case expansion alone exceeds INT_MAX (8*10^8 characters), measured and handed to the allocating
+  // variant: both must refuse, the allocating one without producing a string; and the allocating variant on the 2*10^8 pair with break
+  // normalization (also beyond INT_MAX)
+  { size_t n=800u*1000u*1000u; std::string big(n,'a'); const char*e=big.c_str()+n; g.set_case(J().str("driver","query/giant-single").done());
+    struct Sh{ const char*k; const char*v; int km,vm; }; Sh shapes[]={{big.c_str(),nullptr,800,0},{e,big.c_str(),0,800},{e-200000000,e-200000000,200,200}};
+    for(auto&sh:shapes) for(int nb=0;nb<2;++nb){ UriQueryListA item; item.key=sh.k; item.value=sh.v; item.next=nullptr; int req=-7;
+      int rc=uriComposeQueryCharsRequiredExA(&item,&req,URI_TRUE,nb);
+      g.event(J().str("e","ComposeReqGiant").num("km",sh.km).num("vm",sh.vm).boo("nb",nb).num("rc",rc).boo("nonneg",req>=0).num("reqm",req/1000000).done());
+      if((nb?6:3)*(sh.km+sh.vm)>2147){ char*out=(char*)0x1; int rcm=uriComposeQueryMallocExA(&out,&item,URI_TRUE,nb);
+        g.event(J().str("e","ComposeMallocGiant").num("km",sh.km).num("vm",sh.vm).boo("nb",nb).num("rc",rcm).boo("untouched",out==(char*)0x1||out==nullptr).done()); if(rcm==URI_SUCCESS&&out&&out!=(char*)0x1) free(out); } } }
   // the INT_MAX boundary itself: lists whose exact worst-case size is INT_MAX-3 .. INT_MAX+3.  All keys point into ONE shared buffer of 2^20
   // characters (the measuring call only walks them), empty-key filler items (one '&' each) tune the total to the character; the last item comes
   // with and without a value.  Lengths are logged, TLC adds them up in base 2^20 (its integers are 32 bit).
